@@ -262,36 +262,59 @@ class Xrl:
         recs, b = self._run(1, name, sig, args, mode)
         return recs, b.decode("latin-1").split("\n")[:-1] if b else []
 
-    def safe_call(self, name, *args, mode=0):
-        """like call() but survives a crashing tuple: returns (recs, crashed_indices)."""
+    def run_safe(self, opcode, name, sig, args, mode=0, max_crashes=25):
+        """like _run but survives crashing tuples.  returns (recs, blob, crashed_indices, skipped_from)
+        crashed tuples get an all-zero record; after max_crashes the remainder is skipped (skipped_from = index or None)."""
         try:
-            return self.call(name, *args, mode=mode), []
+            r, b = self._run(opcode, name, sig, args, mode)
+            return r, b, [], None
         except DriverDied:
             pass
-        sig = self.sigs[name][2:-1].rstrip("e")
         cols, pool, n = self._prep(sig, args)
-        out = np.zeros(n, dtype=REC); crashed = []
-
-        def rec(lo, hi):
-            sub = [a[lo:hi] if t != "s" else a[lo:hi] for t, a in cols]
-            argl = []
-            for (t, a), c in zip(cols, sig):
-                argl.append([pool[i] if i >= 0 else None for i in a[lo:hi]] if c == "s" else a[lo:hi])
+        out = np.zeros(n, dtype=REC); crashed = []; blobs = []
+        d = lambda lo, hi: self._drv(0).request(opcode, name, mode, hi - lo, [(t, a[lo:hi]) for t, a in cols], pool)
+        pos = 0
+        step = 200000
+        skipped = None
+        while pos < n:
+            if len(crashed) >= max_crashes:
+                skipped = pos; break
+            hi = min(n, pos + step)
             try:
-                out[lo:hi] = self.call(name, *argl, mode=mode)
+                r, b = d(pos, hi); out[pos:hi] = r; pos = hi; continue
             except DriverDied:
-                if hi - lo == 1:
-                    crashed.append(lo)
-                else:
-                    mid = (lo + hi) // 2
-                    rec(lo, mid); rec(mid, hi)
-        rec(0, n)
-        return out, crashed
+                pass
+            # find the first crashing tuple in [pos, hi) by bisection on prefixes
+            lo_ok, hi_bad = pos, hi          # [pos, lo_ok) known fine, crash somewhere in [lo_ok, hi_bad)
+            while hi_bad - lo_ok > 1:
+                mid = (lo_ok + hi_bad) // 2
+                try:
+                    r, b = d(lo_ok, mid); out[lo_ok:mid] = r; lo_ok = mid
+                except DriverDied:
+                    hi_bad = mid
+            crashed.append(lo_ok)
+            pos = lo_ok + 1
+        return out, b"", crashed, skipped
+
+    def call_safe(self, name, *args, mode=0):
+        sig = self.sigs[name][2:-1]
+        if sig.endswith("e"): sig = sig[:-1]
+        r, b, c, sk = self.run_safe(0, name, sig, args, mode)
+        return r, c, sk
+
+    def op_safe(self, name, sig, *args, mode=0):
+        r, b, c, sk = self.run_safe(1, name, sig, args, mode)
+        return r, c, sk
 
     def close(self):
         for d in self.drivers:
             if d: d.close()
         self.drivers = []
+
+
+def hd(s):
+    """decode a double serialised by ops.c as 16 hex digits of its bit pattern (locale independent)"""
+    return struct.unpack('>d', bytes.fromhex(s))[0]
 
 
 def parse_blob_lines(lines):
